@@ -319,6 +319,15 @@ impl C20 {
                 }
             }
         }
+        // Abandoned requests: a caller starts a request, is suspended in the (asynchronous)
+        // provider and is dropped - the way Rust cancels (select, timeout, a cancelled solve).
+        // Nothing was fetched, so availability must not change; a second caller that was
+        // waiting for the first one takes the request over; once a request has completed the
+        // provider is not consulted again.
+        if let Some(f) = self.abandoned_requests(sc, c, rep) {
+            rep.failure = Some(f);
+            return;
+        }
         // re-entrant queries from inside sort_candidates during a solve
         let mut outcomes = vec![];
         for probe in [SortProbe::Off, SortProbe::On] {
@@ -363,7 +372,134 @@ impl C20 {
     }
 }
 
-struct_property!(C20, "C20", "tape -> universe (all hint modes, favored anywhere in the rank, missing packages, unions) + history of direct SolverCache calls (candidates, matching, non-matching, sorted single/union, dependencies, availability) checked against the provider tables: matching/non-matching partition the listing exactly as filter_candidates defines, sorted = matching in sort_candidates order with the favored candidate rotated to the front, union = concatenation in member order (also when an asynchronous provider completes the members' requests in reverse), for half of the cases the provider's filter_candidates answers in reverse listing order and the partition is compared as sets, repeated queries return the same and leave the provider call log unchanged, and after EVERY operation are_dependencies_available_for(s) == (s hinted by a fetched package) or (dependencies of s fetched), for every solvable; plus a full solve whose sort_candidates re-enters the cache (availability answers checked at the time of the call, result equal to the non-probing solve). Non-trivial: a matched favored candidate that is not first in sort order, or Some-hints, or a repeated query. Distinct = distinct hash of case.");
+impl C20 {
+    fn abandoned_requests(&self, sc: &StructCase, c: &Case, rep: &mut CaseReport) -> Option<Failure> {
+        use resolvo::runtime::AsyncRuntime;
+        use std::future::Future;
+        use std::task::Poll;
+        let u = &c.u;
+        let all: Vec<SRef> = u
+            .packages
+            .iter()
+            .enumerate()
+            .flat_map(|(pi, pk)| (0..pk.cands.len()).map(move |idx| SRef { pkg: pi, idx, listed: true }))
+            .collect();
+        if all.is_empty() {
+            return None;
+        }
+        let pick = |i: usize, n: usize| (sc.extra.get(80 + i).copied().unwrap_or(0) as usize * n) >> 16;
+        let s = all[pick(0, all.len())];
+        let sid = SolvableId(u.cand(s).sid);
+        let pkg = pick(1, u.packages.len());
+        let name = NameId(u.packages[pkg].name_id);
+        let with_listener = pick(2, 2) == 1;
+        let sched = crate::sched::Sched::new(Policy::Fifo, vec![]);
+        let provider = TableProvider::new(c.u.clone()).with_sched(sched.clone());
+        let cache = SolverCache::new(provider);
+        let rt = crate::sched::SchedRuntime { sched: sched.clone() };
+        let bad = |sig: &str, d: String| Failure { signature: format!("C20:{sig}"), detail: d };
+        let availability = |cache: &SolverCache<TableProvider>, fetched_pkgs: &[usize], fetched: &[SRef], when: &str| -> Option<Failure> {
+            for &x in &all {
+                let pk = &u.packages[x.pkg];
+                let hinted = fetched_pkgs.contains(&x.pkg)
+                    && match &pk.hint {
+                        Hint::None => false,
+                        Hint::All => true,
+                        Hint::Some(v) => v.contains(&x.idx),
+                    };
+                let want = hinted || fetched.contains(&x);
+                let got = cache.are_dependencies_available_for(SolvableId(u.cand(x).sid));
+                if got != want {
+                    return Some(Failure {
+                        signature: "C20:availability".into(),
+                        detail: format!(
+                            "{when}: are_dependencies_available_for({}) = {got}, expected {want} (hinted by a fetched package: {hinted}, dependencies fetched: {})",
+                            u.display_solvable(x),
+                            fetched.contains(&x)
+                        ),
+                    });
+                }
+            }
+            None
+        };
+        let r = guarded(|| -> Option<Failure> {
+            rt.block_on(async {
+                // --- dependencies of one solvable
+                let mut a = Box::pin(cache.get_or_cache_dependencies(sid));
+                let ready = futures::future::poll_fn(|cx| Poll::Ready(a.as_mut().poll(cx).is_ready())).await;
+                if ready {
+                    return Some(bad("gated-request-completed-at-once", format!("get_or_cache_dependencies({})", u.display_solvable(s))));
+                }
+                let mut b = Box::pin(cache.get_or_cache_dependencies(sid));
+                if with_listener {
+                    let _ = futures::future::poll_fn(|cx| Poll::Ready(b.as_mut().poll(cx).is_ready())).await;
+                }
+                drop(a);
+                if let Some(f) = availability(&cache, &[], &[], "after a dependencies request was abandoned while suspended in the provider") {
+                    return Some(f);
+                }
+                let got = match b.await {
+                    Ok(d) => d.clone(),
+                    Err(_) => return Some(bad("unexpected-cancel", "dependencies after an abandoned request".into())),
+                };
+                let want = cache.provider().dependencies_of(s);
+                let same = match (&got, &want) {
+                    (Dependencies::Unknown(x), Dependencies::Unknown(y)) => x == y,
+                    (Dependencies::Known(x), Dependencies::Known(y)) => x.requirements == y.requirements && x.constrains == y.constrains,
+                    _ => false,
+                };
+                if !same {
+                    return Some(bad("dependencies", format!("after an abandoned request: {got:?} vs provider {want:?}")));
+                }
+                let before = cache.provider().log.borrow().len();
+                let _ = cache.get_or_cache_dependencies(sid).await;
+                if cache.provider().log.borrow().len() != before {
+                    return Some(bad("repeated-query-consulted-provider", format!("dependencies of {} were fetched, yet asking again consulted the provider", u.display_solvable(s))));
+                }
+                if let Some(f) = availability(&cache, &[], &[s], "after the dependencies were fetched by the caller that took the abandoned request over") {
+                    return Some(f);
+                }
+                // --- candidates of one package
+                let mut a = Box::pin(cache.get_or_cache_candidates(name));
+                let ready = futures::future::poll_fn(|cx| Poll::Ready(a.as_mut().poll(cx).is_ready())).await;
+                if ready {
+                    return Some(bad("gated-request-completed-at-once", format!("get_or_cache_candidates({})", u.packages[pkg].name)));
+                }
+                let mut b = Box::pin(cache.get_or_cache_candidates(name));
+                if with_listener {
+                    let _ = futures::future::poll_fn(|cx| Poll::Ready(b.as_mut().poll(cx).is_ready())).await;
+                }
+                drop(a);
+                if let Some(f) = availability(&cache, &[], &[s], "after a candidates request was abandoned while suspended in the provider") {
+                    return Some(f);
+                }
+                let got = match b.await {
+                    Ok(cands) => cands.candidates.clone(),
+                    Err(_) => return Some(bad("unexpected-cancel", "candidates after an abandoned request".into())),
+                };
+                let want = cache.provider().candidates_of(pkg).unwrap_or_default().candidates;
+                if got != want {
+                    return Some(bad("candidates", format!("after an abandoned request: {got:?} vs provider {want:?}")));
+                }
+                availability(&cache, &[pkg], &[s], "after the candidates were fetched by the caller that took the abandoned request over")
+            })
+        });
+        rep.evaluations += 1;
+        rep.labels.push(if with_listener { "abandoned-request-with-waiting-caller" } else { "abandoned-request" });
+        match r {
+            Ok(f) => f,
+            Err(p) => Some(Failure {
+                signature: if p.message.starts_with(crate::sched::DEADLOCK_MSG) { "deadlock".into() } else { p.signature() },
+                detail: format!(
+                    "abandoned request (a caller was waiting for it: {with_listener}): {} at {}:{}",
+                    p.message, p.file, p.line
+                ),
+            }),
+        }
+    }
+}
+
+struct_property!(C20, "C20", "tape -> universe (all hint modes, favored anywhere in the rank, missing packages, unions) + history of direct SolverCache calls (candidates, matching, non-matching, sorted single/union, dependencies, availability) checked against the provider tables: matching/non-matching partition the listing exactly as filter_candidates defines, sorted = matching in sort_candidates order with the favored candidate rotated to the front, union = concatenation in member order (also when an asynchronous provider completes the members' requests in reverse), for half of the cases the provider's filter_candidates answers in reverse listing order and the partition is compared as sets, repeated queries return the same and leave the provider call log unchanged, and after EVERY operation are_dependencies_available_for(s) == (s hinted by a fetched package) or (dependencies of s fetched), for every solvable; plus requests that are abandoned while suspended in an asynchronous provider (availability unchanged, a waiting second caller takes the request over, the provider is consulted once more and then never again); plus a full solve whose sort_candidates re-enters the cache (availability answers checked at the time of the call, result equal to the non-probing solve). Non-trivial: a matched favored candidate that is not first in sort order, or Some-hints, or a repeated query. Distinct = distinct hash of case.");
 
 // =============================================================================== C16
 
